@@ -91,7 +91,41 @@ EXT = {"native": "", "foam": ".foam", "json": ".json"}
 KEYS_JSON = ["id", "code", "ver", "tag"]
 
 
+def include_seq_oracle(case: dict):
+    """a target that carries an #include (written from an SDict on which include() was called): appends keep what the file
+    has through its include as well, and the directive itself"""
+    dictIO = native.dictio()
+    fmt = case["fmt"]
+    tmp = native.scratch_dir("c16i_")
+    try:
+        param = tmp / ("param" + EXT[fmt])
+        dictIO.DictWriter.write(copy.deepcopy(case["param"]), param, mode="w")
+        target = tmp / ("target" + EXT[fmt])
+        try:
+            a = dictIO.SDict(target)
+            a.update(copy.deepcopy(case["first"]))
+            a.include(dictIO.DictReader.read(param))
+            dictIO.DictWriter.write(a, target, mode="w")
+            state = merge_spec(native.normalise(copy.deepcopy(case["first"])), native.normalise(copy.deepcopy(case["param"])))
+            for i, d in enumerate(case["appends"]):
+                dictIO.DictWriter.write(copy.deepcopy(d), target, mode="a")
+                state = merge_spec(state, native.normalise(copy.deepcopy(d)))
+                got = native.strip_placeholders(gen.plain(dict(dictIO.DictReader.read(target))), kinds=("BLOCKCOMMENT", "LINECOMMENT", "INCLUDE"))
+                got.pop("FoamFile", None) if fmt == "foam" else None
+                if not c15.assoc_eq(got, state):
+                    return ("content", f"target with an include, after append {i}: the file reads {got!r}, expected {state!r}")
+                if "include" not in target.read_text():
+                    return ("content", f"target with an include, after append {i}: the include directive is gone from the file")
+        except Exception as e:  # noqa: BLE001
+            return ("raises", f"include sequence raised {type(e).__name__}: {e}")
+        return None
+    finally:
+        shutil.rmtree(tmp, ignore_errors=True)
+
+
 def oracle(case: dict):
+    if case.get("kind") == "include-seq":
+        return include_seq_oracle(case)
     dictIO = native.dictio()
     fmt, seq = case["fmt"], case["seq"]
     exp = spec_fold(case, fmt)
@@ -125,6 +159,8 @@ def oracle(case: dict):
 
 
 def shrink(case):
+    if case.get("kind") == "include-seq":
+        return
     seq = case["seq"]
     al = case.get("alias") or {}
     for i in range(len(seq)):
@@ -233,6 +269,15 @@ def run(ctx):
             ctx.classes["mode:" + repr(m)] += 1
         if c["alias"]:
             ctx.classes["shared sub-dict object"] += 1
+    # targets that carry an include
+    for i in range(ctx.n(30, 600)):
+        fmt = ["native", "foam", "json"][i % 3]
+        c = {"kind": "include-seq", "fmt": fmt, "param": {"paramA": 11, "shared": {"fromParam": 12}, "pz": "two words"},
+             "first": {"own": 1, "shared": {"mine": 2}}, "appends": [{"late": i, "shared": {"x": 3}}, {"paramA": 97, "more": {"y": 1}}][: rng.randrange(1, 3)]}
+        r = oracle(c)
+        if r:
+            ctx.oracle_fail(c, r[0], r[1])
+        ctx.count(("is", fmt, len(c["appends"]), i), True, "include-seq:" + fmt)
     model_bytes(ctx, cases[: ctx.n(120, 1500)])
     for f in ("native", "foam", "json"):
         if ctx.classes[f] == 0:
